@@ -362,8 +362,7 @@ Section NoCull.
     Sinv s -> key_domain k = true -> put (c_codec c) k = PutOk dbk raw ->
     store (c_codec c) (c_min_file_size c) v rd = StOk sd ->
     exists r', kview (fst (op_set c s k v rd e tag now pg)) dbk (b2z raw) = [(r', s_file sd)] /\
-               expire_time r' = expire_at now e /\ rtag r' = tag /\ rmode r' = s_mode sd /\ rvalue r' = s_col sd /\
-               rkey r' = dbk /\ rraw r' = raw.
+               expire_time r' = expire_at now e /\ rtag r' = tag /\ rmode r' = s_mode sd /\ rvalue r' = s_col sd.
   Proof.
     intros H Dk P St. unfold op_set. rewrite P, St.
     destruct (fs_write s (s_file sd)) as [s1 fid] eqn:Wr.
@@ -376,7 +375,7 @@ Section NoCull.
     - rewrite fs_remove_nil.
       set (n := columns_insert dbk raw now (expire_at now e) tag sd fid (next_rowid (rows s1))).
       exists n. split; [|repeat split].
-      unfold kview. rewrite rows_t_insert, filter_app, R1, F. fold n. cbn [app filter].
+      unfold kview. rewrite rows_t_insert, filter_app. fold n. rewrite R1, F. cbn [app filter].
       rewrite (key_match_self dbk raw n Nn eq_refl eq_refl). cbn [map]. f_equal. f_equal. exact Lk.
     - apply filter_cons_in in F as [I0 M0].
       assert (I1 : In r0 (rows s1)) by (rewrite R1; exact I0).
@@ -386,15 +385,317 @@ Section NoCull.
       assert (M2 : key_match dbk (b2z raw) (f r0) = true).
       { rewrite (key_match_cols _ _ (f r0) r0); [exact M0|reflexivity|reflexivity]. }
       assert (I2 : In (f r0) (rows s2)) by (rewrite E2; apply in_or_app; right; left; reflexivity).
-      exists (f r0). split; [|repeat split; apply (key_match_spec _ _ _), M0 || reflexivity].
-      + unfold kview. rewrite rows_fs_remove.
-        rewrite (filter_unique (key_match dbk (b2z raw)) (rows s2) (f r0)); [|apply rows_nodup, H2|exact I2|exact M2|].
-        * cbn [map]. f_equal. f_equal. change (rfile (f r0)) with fid. rewrite <- Lk. unfold fs_lookup.
-          destruct fid as [g|]; [|reflexivity]. rewrite fs_get_fs_remove; [rewrite Fs2; reflexivity|].
-          intros [E|[]]. destruct Fok as [Nr _]. apply Nr. apply in_frefs. eauto.
-        * intros y Iy My. eapply (lookup_unique (rows s2)); eauto; [apply H2|eapply put_wf; eauto].
-      + destruct (proj1 (key_match_spec _ _ _) M0) as [_ [_ [C _]]].
-        (* the stored key column is the old one: it compares equal, which is all lookups need *)
-        exact (eq_refl : rkey (f r0) = rkey r0) |> fun _ => _.
-  Admitted.
+      exists (f r0). split; [|repeat split].
+      unfold kview. rewrite rows_fs_remove.
+      rewrite (filter_unique (key_match dbk (b2z raw)) (rows s2) (f r0)); [|apply rows_nodup, H2|exact I2|exact M2|].
+      + cbn [map]. f_equal. f_equal. change (rfile (f r0)) with fid. rewrite <- Lk. unfold fs_lookup.
+        destruct fid as [g|]; [|reflexivity]. rewrite fs_get_fs_remove; [rewrite Fs2; reflexivity|].
+        intros [E|[]]. destruct Fok as [Nr _]. apply Nr. apply in_frefs. eauto.
+      + intros y Iy My. eapply (lookup_unique (rows s2)); eauto; [apply H2|eapply put_wf; eauto].
+  Qed.
+
+  Lemma set_ok_inv s k v rd e tag now pg :
+    snd (op_set c s k v rd e tag now pg) = RBool true ->
+    exists dbk raw sd, put (c_codec c) k = PutOk dbk raw /\ store (c_codec c) (c_min_file_size c) v rd = StOk sd.
+  Proof.
+    unfold op_set. destruct (put _ k) as [dbk raw|]; [|discriminate].
+    destruct (store _ _ v rd) as [sd|]; [|discriminate]. eauto.
+  Qed.
+
+  (* what a lookup right after set k v sees, in terms of what Disk.store produced *)
+  Lemma get_after_set_gen s k v rd e tag now pg dbk raw sd rd' now' :
+    Sinv s -> key_domain k = true -> put (c_codec c) k = PutOk dbk raw ->
+    store (c_codec c) (c_min_file_size c) v rd = StOk sd ->
+    live_opt now' (expire_at now e) = true ->
+    snd (op_get c (fst (op_set c s k v rd e tag now pg)) k rd' now') =
+      match fetch (c_codec c) (s_mode sd) (s_file sd) (s_col sd) rd' with
+      | FIOError => RDefault
+      | x => RVal x (expire_at now e) tag
+      end /\
+    snd (op_contains c (fst (op_set c s k v rd e tag now pg)) k now') = RBool true.
+  Proof.
+    intros H Dk P St L.
+    destruct (view_after_set s k v rd e tag now pg dbk raw sd H Dk P St) as [r' [V [Ee [Et [Em Ev]]]]].
+    rewrite (get_by_view _ _ _ _ _ _ _ P), (contains_by_view _ _ _ _ _ _ P), V.
+    unfold get_res, contains_res. cbn [filter fst snd]. unfold live_at. rewrite Ee, L. cbn [fst snd is_nil negb].
+    rewrite Em, Ev, Ee, Et. auto.
+  Qed.
+
+  (* (a) get after set: the value comes back unchanged, with expiry now+ttl and the tag *)
+  Theorem get_after_set s k v rd e tag now pg now' :
+    Sinv s -> codec_ok (c_codec c) -> key_domain k = true -> shape_ok v rd = true ->
+    snd (op_set c s k v rd e tag now pg) = RBool true ->
+    live_opt now' (expire_at now e) = true ->
+    snd (op_get c (fst (op_set c s k v rd e tag now pg)) k false now') = RVal (FVal (expected v)) (expire_at now e) tag /\
+    snd (op_contains c (fst (op_set c s k v rd e tag now pg)) k now') = RBool true.
+  Proof.
+    intros H Hc Dk Hs Ok L. destruct (set_ok_inv _ _ _ _ _ _ _ _ Ok) as [dbk [raw [sd [P St]]]].
+    destruct (get_after_set_gen s k v rd e tag now pg dbk raw sd false now' H Dk P St L) as [G C].
+    destruct (store_fetch_roundtrip _ _ _ _ _ Hc Hs St) as [F _]. rewrite F in G. auto.
+  Qed.
+
+  (* a stream stored with read=True comes back as an open handle when read with read=True *)
+  Theorem get_after_set_stream s k b e tag now pg now' :
+    Sinv s -> codec_ok (c_codec c) -> key_domain k = true ->
+    snd (op_set c s k (VStream b) true e tag now pg) = RBool true ->
+    live_opt now' (expire_at now e) = true ->
+    snd (op_get c (fst (op_set c s k (VStream b) true e tag now pg)) k true now') = RVal (FHandleOn b) (expire_at now e) tag.
+  Proof.
+    intros H Hc Dk Ok L. destruct (set_ok_inv _ _ _ _ _ _ _ _ Ok) as [dbk [raw [sd [P St]]]].
+    destruct (get_after_set_gen s k (VStream b) true e tag now pg dbk raw sd true now' H Dk P St L) as [G _].
+    destruct (store_fetch_roundtrip _ _ (VStream b) true _ Hc eq_refl St) as [_ [F _]]. rewrite (F b eq_refl) in G. exact G.
+  Qed.
+
+  (* set keeps the position of an existing key and appends a new one (iteration order) *)
+  Theorem set_position s k v rd e tag now pg dbk raw :
+    put (c_codec c) k = PutOk dbk raw -> snd (op_set c s k v rd e tag now pg) = RBool true ->
+    keys_of (rows (fst (op_set c s k v rd e tag now pg))) =
+      match filter (key_match dbk (b2z raw)) (rows s) with
+      | [] => keys_of (rows s) ++ [(dbk, raw)]
+      | _ :: _ => keys_of (rows s)
+      end.
+  Proof.
+    intros P Ok. destruct (set_ok_inv _ _ _ _ _ _ _ _ Ok) as [dbk' [raw' [sd [P' St]]]]. unfold op_set. rewrite P, St.
+    destruct (fs_write s (s_file sd)) as [s1 fid] eqn:Wr.
+    assert (R1 : rows s1 = rows s).
+    { pose proof (rows_fs_write s (s_file sd)) as R. rewrite Wr in R. exact R. }
+    rewrite bridge_set_select, R1.
+    destruct (filter (key_match dbk (b2z raw)) (rows s)) as [|r0 rs] eqn:F; cbv beta iota zeta;
+      rewrite cull_disabled_0 by exact NoCull; cbn [fst app]; rewrite rows_fs_remove.
+    - rewrite rows_t_insert, R1. unfold keys_of. rewrite map_app. reflexivity.
+    - unfold columns_update. rewrite rows_t_update, R1. unfold keys_of. rewrite map_map. apply map_ext.
+      intros r. destruct (row_update_where _ _ _ _ _ _ _ _ _ _ r); reflexivity.
+  Qed.
 End NoCull.
+
+(* ================================================================== (c) delete / pop *)
+Lemma view_after_remove s wh r0 k z :
+  Winv s -> sv_wf k = true -> In r0 (rows s) -> key_match k z r0 = true -> (forall r, wh r = (rowid r =? rowid r0)) ->
+  kview (fs_remove (t_delete wh s) [rfile r0]) k z = [].
+Proof.
+  intros W Wk I0 M0 Hwh. unfold kview. rewrite rows_fs_remove, rows_t_delete.
+  rewrite (filter_none (key_match k z)); [reflexivity|]. intros x Ix. apply filter_In in Ix as [Ix Nx].
+  destruct (key_match k z x) eqn:Mx; [|reflexivity]. exfalso.
+  assert (x = r0) by (eapply (lookup_unique (rows s)); eauto; apply W). subst x.
+  rewrite Hwh, Z.eqb_refl in Nx. discriminate.
+Qed.
+
+Lemma absent_view c s k dbk raw : put (c_codec c) k = PutOk dbk raw -> kview s dbk (b2z raw) = [] ->
+  forall rd now, snd (op_get c s k rd now) = RDefault /\ snd (op_contains c s k now) = RBool false.
+Proof.
+  intros P V rd now. rewrite (get_by_view _ _ _ _ _ _ _ P), (contains_by_view _ _ _ _ _ _ P), V. split; reflexivity.
+Qed.
+
+Theorem absent_after_delete c s k di now :
+  Sinv s -> snd (op_delete c s k di now) = RBool true ->
+  forall rd now', snd (op_get c (fst (op_delete c s k di now)) k rd now') = RDefault /\
+                  snd (op_contains c (fst (op_delete c s k di now)) k now') = RBool false.
+Proof.
+  intros H. unfold op_delete. destruct (put (c_codec c) k) as [dbk raw|] eqn:P; [|discriminate].
+  rewrite bridge_del_select. destruct (filter _ (rows s)) as [|r0 rs] eqn:F; [destruct di; discriminate|].
+  intros _. cbn [fst]. apply filter_cons_in in F as [I0 M0]. apply andb_true_iff in M0 as [M0 _].
+  apply (absent_view c _ k dbk raw P). apply view_after_remove; auto; [apply H|eapply put_wf; eauto|].
+  intros r. apply bridge_del_delete.
+Qed.
+
+Theorem absent_after_pop c s k now v e t :
+  Sinv s -> snd (op_pop c s k now) = RVal v e t ->
+  forall rd now', snd (op_get c (fst (op_pop c s k now)) k rd now') = RDefault /\
+                  snd (op_contains c (fst (op_pop c s k now)) k now') = RBool false.
+Proof.
+  intros H. unfold op_pop. destruct (put (c_codec c) k) as [dbk raw|] eqn:P; [|discriminate].
+  rewrite bridge_pop_select. destruct (filter _ (rows s)) as [|r0 rs] eqn:F; [discriminate|]. cbv zeta.
+  apply filter_cons_in in F as [I0 M0]. apply andb_true_iff in M0 as [M0 _].
+  assert (U : forall rd now',
+    snd (op_get c (fs_remove (t_delete (pop_delete (rowid r0) (rows s)) s) [rfile r0]) k rd now') = RDefault /\
+    snd (op_contains c (fs_remove (t_delete (pop_delete (rowid r0) (rows s)) s) [rfile r0]) k now') = RBool false).
+  { apply (absent_view c _ k dbk raw P). apply view_after_remove; auto; [apply H|eapply put_wf; eauto|].
+    intros r. apply bridge_pop_delete. }
+  destruct (fetch_row _ _ _ _); intros _; exact U.
+Qed.
+
+(* with a clock that does not go back, the key is absent after ANY delete / pop of it (it was removed, or
+   it was not live and stays so) *)
+Lemma live_opt_mono now now' e : now <= now' -> live_opt now e = false -> live_opt now' e = false.
+Proof. destruct e as [x|]; cbn; [|discriminate]. intros L. rewrite !Z.ltb_ge. lia. Qed.
+
+Lemma absent_if_dead c s k dbk raw now :
+  put (c_codec c) k = PutOk dbk raw ->
+  filter (fun r => key_match dbk (b2z raw) r && live_at now r) (rows s) = [] ->
+  forall rd now', now <= now' ->
+  snd (op_get c s k rd now') = RDefault /\ snd (op_contains c s k now') = RBool false.
+Proof.
+  intros P F rd now' L.
+  assert (F' : filter (fun r => key_match dbk (b2z raw) r && live_at now' r) (rows s) = []).
+  { apply filter_none. intros x Ix. pose proof (filter_nil_none _ _ x F Ix) as N. cbv beta in N.
+    destruct (key_match dbk (b2z raw) x); [|reflexivity]. cbn [andb] in *. unfold live_at in *. eapply live_opt_mono; eauto. }
+  unfold op_get, op_contains. rewrite P, bridge_get_select, bridge_contains_select, F'.
+  split; [destruct (get_fast_path _ _); reflexivity|reflexivity].
+Qed.
+
+Theorem absent_after_delete_mono c s k di now dbk raw :
+  Sinv s -> put (c_codec c) k = PutOk dbk raw ->
+  forall rd now', now <= now' ->
+  snd (op_get c (fst (op_delete c s k di now)) k rd now') = RDefault /\
+  snd (op_contains c (fst (op_delete c s k di now)) k now') = RBool false.
+Proof.
+  intros H P rd now' L.
+  destruct (filter (fun r => key_match dbk (b2z raw) r && live_at now r) (rows s)) as [|r0 rs] eqn:F.
+  - assert (E : fst (op_delete c s k di now) = s) by (unfold op_delete; rewrite P, bridge_del_select, F; reflexivity).
+    rewrite E. eapply absent_if_dead; eauto.
+  - apply absent_after_delete; auto. unfold op_delete. rewrite P, bridge_del_select, F. reflexivity.
+Qed.
+
+Theorem absent_after_pop_mono c s k now dbk raw :
+  Sinv s -> put (c_codec c) k = PutOk dbk raw ->
+  forall rd now', now <= now' ->
+  snd (op_get c (fst (op_pop c s k now)) k rd now') = RDefault /\
+  snd (op_contains c (fst (op_pop c s k now)) k now') = RBool false.
+Proof.
+  intros H P rd now' L.
+  destruct (filter (fun r => key_match dbk (b2z raw) r && live_at now r) (rows s)) as [|r0 rs] eqn:F.
+  - assert (E : fst (op_pop c s k now) = s) by (unfold op_pop; rewrite P, bridge_pop_select, F; reflexivity).
+    rewrite E. eapply absent_if_dead; eauto.
+  - assert (E : fst (op_pop c s k now) = fs_remove (t_delete (pop_delete (rowid r0) (rows s)) s) [rfile r0]).
+    { unfold op_pop. rewrite P, bridge_pop_select, F. cbv zeta. destruct (fetch_row _ _ _ _); reflexivity. }
+    rewrite E. apply filter_cons_in in F as [I0 M0]. apply andb_true_iff in M0 as [M0 _].
+    apply (absent_view c _ k dbk raw P). apply view_after_remove; auto; [apply H|eapply put_wf; eauto|].
+    intros r. apply bridge_pop_delete.
+Qed.
+
+(* ================================================================== (d) add *)
+(* on an absent key, or on a key whose item is dead, add is set *)
+Theorem add_is_set c s k v rd e tag now pg dbk raw :
+  put (c_codec c) k = PutOk dbk raw ->
+  match filter (key_match dbk (b2z raw)) (rows s) with [] => True | r0 :: _ => live_at now r0 = false end ->
+  op_add c s k v rd e tag now pg = op_set c s k v rd e tag now pg.
+Proof.
+  intros P Hd. unfold op_add, op_set. rewrite P. destruct (store _ _ v rd) as [sd|]; [|reflexivity].
+  destruct (fs_write s (s_file sd)) as [s1 fid] eqn:Wr.
+  assert (R1 : rows s1 = rows s).
+  { pose proof (rows_fs_write s (s_file sd)) as R. rewrite Wr in R. exact R. }
+  rewrite bridge_add_select, bridge_set_select, R1.
+  destruct (filter (key_match dbk (b2z raw)) (rows s)) as [|r0 rs]; cbv beta iota zeta.
+  - destruct (cull _ _ _ _). reflexivity.
+  - rewrite bridge_add_live. unfold live_at in Hd. rewrite Hd. destruct (cull _ _ _ _). reflexivity.
+Qed.
+
+Lemma filter_fresh_file (f : list (Z * fcontent)) nf content :
+  (forall id, In id (map fst f) -> id < nf) ->
+  filter (fun p => negb (fst p =? nf)) (f ++ [(nf, content)]) = f.
+Proof.
+  intros H. rewrite filter_app. cbn [filter fst]. rewrite Z.eqb_refl. cbn [negb]. rewrite app_nil_r.
+  apply filter_all. intros [i x] I. cbn [fst]. apply negb_true_iff, Z.eqb_neq.
+  specialize (H i (in_map fst _ _ I)). cbn in H. lia.
+Qed.
+
+(* on a live key add returns False and changes nothing but the fresh-name supply (it wrote and removed a file) *)
+Theorem add_live_noop c s k v rd e tag now pg dbk raw sd r0 rs :
+  Winv s -> put (c_codec c) k = PutOk dbk raw -> store (c_codec c) (c_min_file_size c) v rd = StOk sd ->
+  filter (key_match dbk (b2z raw)) (rows s) = r0 :: rs -> live_at now r0 = true ->
+  op_add c s k v rd e tag now pg =
+    (match s_file sd with Some _ => set_fs s (fs s) (next_file s + 1) | None => s end, RBool false).
+Proof.
+  intros W P St F L. unfold op_add. rewrite P, St. unfold live_at in L.
+  destruct (s_file sd) as [content|]; cbn [fs_write]; rewrite bridge_add_select; cbn [set_fs rows]; rewrite F, bridge_add_live, L.
+  - f_equal. unfold fs_remove. cbn [fold_left fs_remove1 set_fs fs next_file rows n_count n_size n_hits n_misses statistics].
+    rewrite filter_fresh_file; [reflexivity|]. intros id I. apply (w_lt s W). right. exact I.
+  - reflexivity.
+Qed.
+
+Corollary add_live_returns_false c s k v rd e tag now pg dbk raw r0 rs :
+  put (c_codec c) k = PutOk dbk raw -> filter (key_match dbk (b2z raw)) (rows s) = r0 :: rs -> live_at now r0 = true ->
+  snd (op_add c s k v rd e tag now pg) = RBool false \/ snd (op_add c s k v rd e tag now pg) = RRaise EStore.
+Proof.
+  intros P F L. unfold op_add. rewrite P. destruct (store _ _ v rd) as [sd|]; [|right; reflexivity].
+  destruct (fs_write s (s_file sd)) as [s1 fid] eqn:Wr.
+  assert (R1 : rows s1 = rows s).
+  { pose proof (rows_fs_write s (s_file sd)) as R. rewrite Wr in R. exact R. }
+  rewrite bridge_add_select, R1, F, bridge_add_live. unfold live_at in L. rewrite L. left. reflexivity.
+Qed.
+
+(* ================================================================== (e) incr *)
+(* a live item holding an int64 (what set stores for such a value) *)
+Definition int_item (c : cfg) (s : st) (k : pyval) (now z : Z) (r0 : row) : Prop :=
+  exists dbk raw rs, put (c_codec c) k = PutOk dbk raw /\ filter (key_match dbk (b2z raw)) (rows s) = r0 :: rs /\
+                     live_at now r0 = true /\ rvalue r0 = SInt z /\ rmode r0 = MODE_RAW.
+
+Theorem incr_live_int c s k d df now pg z r0 now' :
+  Sinv s -> int_item c s k now z r0 -> in_int64 (z + d) = true -> live_at now' r0 = true ->
+  snd (op_incr c s k d df now pg) = RVal (FVal (VInt (z + d))) None SNull /\
+  snd (op_get c (fst (op_incr c s k d df now pg)) k false now') = RVal (FVal (VInt (z + d))) (expire_time r0) (rtag r0).
+Proof.
+  intros H [dbk [raw [rs [P [F [L [Ev Em]]]]]]] R L'.
+  pose proof F as F0. apply filter_cons_in in F0 as [I0 M0].
+  assert (E : op_incr c s k d df now pg =
+              (t_update (fun r => rowid r =? rowid r0) (incr_update (c_policy c) now (SInt (z + d)) (rowid r0)) s,
+               RVal (FVal (VInt (z + d))) None SNull)).
+  { unfold op_incr. rewrite P, bridge_incr_select, F, bridge_incr_expired. unfold live_at in L. rewrite L. cbn [negb].
+    rewrite Ev, R. reflexivity. }
+  rewrite E. cbn [fst snd]. split; [reflexivity|].
+  set (f := incr_update (c_policy c) now (SInt (z + d)) (rowid r0)).
+  set (s' := t_update (fun r => rowid r =? rowid r0) f s).
+  assert (H' : Pinv s' (fun _ => False)).
+  { apply (pinv_update_keep s _ _ _ (bridge_incr_update_keeps_id _ _ _ _) (bridge_incr_update_keeps_file _ _ _ _)).
+    apply sinv_pinv, H. }
+  assert (Ir : In (f r0) (rows s')).
+  { unfold s'. rewrite rows_t_update. apply in_map_iff. exists r0. rewrite Z.eqb_refl. auto. }
+  assert (Ki := bridge_incr_update_keeps_id (c_policy c) now (SInt (z + d)) (rowid r0) r0). fold f in Ki.
+  assert (Kf := bridge_incr_update_keeps_file (c_policy c) now (SInt (z + d)) (rowid r0) r0). fold f in Kf.
+  assert (Mr : key_match dbk (b2z raw) (f r0) = true).
+  { rewrite (key_match_cols _ _ (f r0) r0); [exact M0|apply Ki|apply Ki]. }
+  assert (Fields : expire_time (f r0) = expire_time r0 /\ rtag (f r0) = rtag r0 /\ rmode (f r0) = rmode r0 /\ rvalue (f r0) = SInt (z + d)).
+  { unfold f, incr_update. destruct (c_policy c);
+      unfold incr_update_plain_where, incr_update_PLRU_where, incr_update_PLFU_where, tvz_eq; rewrite Z.eqb_refl; cbn [truthy];
+      repeat split. }
+  destruct Fields as [Fe [Ft [Fm Fv]]].
+  rewrite (get_by_view _ _ _ _ _ _ _ P). unfold kview.
+  rewrite (filter_unique (key_match dbk (b2z raw)) (rows s') (f r0)); [|apply rows_nodup, H'|exact Ir|exact Mr|].
+  - unfold get_res. cbn [map filter fst snd]. unfold live_at. rewrite Fe. unfold live_at in L'. rewrite L'. cbn [fst snd].
+    rewrite Fm, Fv, Fe, Ft, Em. unfold fetch. rewrite bridge_fetch_plan. reflexivity.
+  - intros y Iy My. eapply (lookup_unique (rows s')); eauto; [apply H'|eapply put_wf; eauto].
+Qed.
+
+(* set of an int64 value makes an int item (so set; incr; get composes) *)
+Lemma store_int c m z sd : in_int64 z = true -> store c m (VInt z) false = StOk sd ->
+  s_mode sd = MODE_RAW /\ s_col sd = SInt z /\ s_file sd = None.
+Proof.
+  intros R. unfold store. rewrite bridge_store_plan. cbn [store_plan_spec]. rewrite R. cbn [run_plan bind]. rewrite R.
+  intros E; inversion E; subst. repeat split.
+Qed.
+
+Theorem set_incr_get c s k z e tag now pg d df now1 pg1 now2 :
+  c_cull_limit c = 0 -> Sinv s -> key_domain k = true -> in_int64 z = true -> in_int64 (z + d) = true ->
+  snd (op_set c s k (VInt z) false e tag now pg) = RBool true ->
+  live_opt now1 (expire_at now e) = true -> live_opt now2 (expire_at now e) = true ->
+  let s1 := fst (op_set c s k (VInt z) false e tag now pg) in
+  snd (op_incr c s1 k d df now1 pg1) = RVal (FVal (VInt (z + d))) None SNull /\
+  snd (op_get c (fst (op_incr c s1 k d df now1 pg1)) k false now2) = RVal (FVal (VInt (z + d))) (expire_at now e) tag.
+Proof.
+  intros NoCull H Dk Rz Rzd Ok L1 L2 s1.
+  destruct (set_ok_inv _ _ _ _ _ _ _ _ _ Ok) as [dbk [raw [sd [P St]]]].
+  destruct (view_after_set c NoCull s k (VInt z) false e tag now pg dbk raw sd H Dk P St) as [r' [V [Ee [Et [Em Ev]]]]].
+  destruct (store_int _ _ _ _ Rz St) as [Sm [Sc _]].
+  assert (H1 : Sinv s1) by (apply sinv_set, H).
+  assert (F : filter (key_match dbk (b2z raw)) (rows s1) = [r']).
+  { fold s1 in V. unfold kview in V. destruct (filter (key_match dbk (b2z raw)) (rows s1)) as [|a [|b t]]; try discriminate.
+    cbn in V. inversion V. reflexivity. }
+  assert (It : int_item c s1 k now1 z r').
+  { exists dbk, raw, []. unfold live_at. rewrite Ee, Em, Ev, Sm, Sc. auto. }
+  destruct (incr_live_int c s1 k d df now1 pg1 z r' now2 H1 It Rzd) as [A B].
+  { unfold live_at. rewrite Ee. exact L2. }
+  rewrite Ee, Et in B. auto.
+Qed.
+
+(* ================================================================== len *)
+Theorem len_counts_rows s : Sinv s -> snd (op_len s) = RInt (Z.of_nat (length (rows s))).
+Proof. intros [W _]. destruct (w_counters s W) as [C _]. unfold op_len. cbn. rewrite C. reflexivity. Qed.
+
+Print Assumptions no_shadowing.
+Print Assumptions get_after_set.
+Print Assumptions absent_after_delete.
+Print Assumptions absent_after_pop.
+Print Assumptions add_is_set.
+Print Assumptions add_live_noop.
+Print Assumptions incr_live_int.
+Print Assumptions set_incr_get.
